@@ -86,6 +86,7 @@ type Chan struct {
 	Closed bool
 	vc     vclock
 	Ticker bool // channel of a time.Ticker: ready while the harness' tick budget lasts
+	Epoch  int  // tickers created before the latest verifrt.Ticks call never fire
 }
 
 // rangeIter is the value of an ssa.Range instruction.
